@@ -82,6 +82,9 @@ def _expr(depth: int) -> st.SearchStrategy[Any]:
         st.builds(lambda i, a, b: ["app2", i, a, b], st.integers(0, NFUN - 1), sub, sub),
         st.builds(lambda k, a, w: ["wrap", k, a, w], st.sampled_from(WRAPS), st.one_of(sym, sub), st.booleans()),
         st.builds(lambda a, v, n: ["deriv", a, v, n], sub, st.integers(0, 2), st.integers(1, 2)),
+        # coefficient x derivative x function: a derivative in the middle of a canonical product
+        st.builds(lambda c, i, v, j, n, t: ["dprod", c, i, v, j, n, t], st.one_of(leaf, sub), st.integers(0, NFUN - 1),
+            st.integers(0, 2), st.integers(0, NFUN - 1), st.integers(1, 2), st.booleans()),
     )
 
 
@@ -139,7 +142,10 @@ class Pool:
             self.idx.append(IndexedSymbol(CODE_NAMES[k], display_latex=LATEX_NAMES[k]))
         self.qty = [Quantity(3 * units.meter, display_symbol="L_0", display_latex="L_0"),
             Quantity(units.boltzmann_constant, display_symbol="k_B0", display_latex="k_\\text{B0}")]
-        self.funs = [Function(FUN_NAMES[k], display_latex=FUN_LATEX[k]) for k in case["funs"]]
+        # odd-numbered pool functions are declared with an argument list (as clone_as_function(sym, [t]) does in the
+        # catalogue) and are then applied to whatever the tree says, e.g. m(t_1) for a function declared as m(t)
+        self.funs = [Function(FUN_NAMES[k], [self.syms[j % NSYM]] if j % 2 else None, display_latex=FUN_LATEX[k])
+            for j, k in enumerate(case["funs"])]
         self.render_object: Any = None  # set when the object handed to the printer differs from the expression it denotes
 
     def build(self, d: Any) -> Any:
@@ -182,7 +188,11 @@ class Pool:
         if op == "app":
             return self.funs[d[1]](b(d[2]))
         if op == "app2":
-            return self.funs[d[1]](b(d[2]), b(d[3]))
+            return self.funs[d[1] - d[1] % 2](b(d[2]), b(d[3]))
+        if op == "dprod":
+            v = self.syms[d[3]]
+            tail = self.funs[d[4] - d[4] % 2](v) if d[6] else sp.sin(v)
+            return sp.Mul(b(d[1]), sp.Derivative(self.funs[d[2]](v), (v, d[5])), tail)
         if op == "wrap":
             cls = getattr(symbolic, d[1])
             inner = b(d[2])
@@ -273,7 +283,10 @@ def round_trip(expr: Any, mode: str, render: Callable[[Any], str], parse: Callab
         rt.status, rt.detail = "unparsed", "recursion"
         return rt
     except Exception as exc:  # pylint: disable=broad-except
-        rt.status, rt.detail = "unparsed", f"{type(exc).__name__}: {exc}"
+        # a plain symbol in the rendering that is not the display name of any atom of the expression cannot denote the
+        # same expression; every other reading failure is a limit of the harness grammar
+        rt.status = "foreign-symbol" if type(exc).__name__ == "ForeignSymbol" else "unparsed"
+        rt.detail = f"{type(exc).__name__}: {exc}"
         return rt
     rt.tree = tree
     sym = interp.SymEval(lex.token_of)
